@@ -2,10 +2,10 @@
 (* Validation of keys returned by the REAL paillier.GenerateKeyPair (requested *)
 (* lengths of at most 30 bits) against PaillierKeyGen.tla: one ndjson line per *)
 (* call with the requested length and the five numbers of the returned         *)
-(* PrivateKey.  A line is explained iff the model's loop can leave with that   *)
-(* pair (both factors are values the generator model delivers, far apart) and  *)
-(* N, PhiN, LambdaN are what the model computes from it; KeyIsGood etc. are    *)
-(* evaluated on the resulting state.                                           *)
+(* PrivateKey.  A line is explained iff the key is what the property demands   *)
+(* for that request and N, PhiN, LambdaN are what the model computes from the  *)
+(* factors; KeyIsGood etc. are evaluated on the resulting state.  Whether the  *)
+(* factors also have the shape of the generator model is reported separately.  *)
 EXTENDS PaillierKeyGen, Json, IOUtils
 
 TraceFile == IF "TRACE" \in DOMAIN IOEnv THEN IOEnv.TRACE ELSE "trace.ndjson"
@@ -16,18 +16,31 @@ tvars == <<bits, stage, key, l>>
 
 TraceInit == l = 1 /\ bits = (CHOOSE b \in BitsSet : TRUE) /\ stage = "draw" /\ key = NoKey
 
-(* can the model's loop, asked for e.bits, leave with exactly the logged key ? *)
+(* Two levels of explanation.                                                                     *)
+(* ExplainsKey: what property C14 says about a generated key - the logged numbers are a GoodKey  *)
+(* for the requested length (distinct safe primes, far apart, modulus of exactly that length) and *)
+(* N, PhiN, LambdaN are what the code's formulas (MakeKey) give for the pair.                    *)
+(* InGeneratorModel: in addition both factors are values the generator MODEL delivers (two top   *)
+(* bits set), i.e. the model's loop can leave with exactly that pair.  That shape is the reason  *)
+(* the length is exact, but it is not itself part of property C14 (it is C19's): a key that is   *)
+(* explained at the first level only is counted as DRIFT (printed for the harness), not refused. *)
 ExplainsKey(e) ==
   /\ e.bits \in BitsSet
+  /\ MakeKey(e.p, e.q) = [p |-> e.p, q |-> e.q, n |-> e.n, phi |-> e.phi, lambda |-> e.lambda]
+  /\ IF e.bits % 2 = 0 THEN GoodKey(e.bits, MakeKey(e.p, e.q))
+                       ELSE GoodKey(e.bits - 1, MakeKey(e.p, e.q))          \* OddRequestOneShort
+
+InGeneratorModel(e) ==
   /\ e.p \in SP[e.bits \div 2] /\ e.q \in SP[e.bits \div 2]
   /\ FarApart(e.bits, e.p, e.q)                       \* = Accept(e.p, e.q) for a fresh call with e.bits
-  /\ MakeKey(e.p, e.q) = [p |-> e.p, q |-> e.q, n |-> e.n, phi |-> e.phi, lambda |-> e.lambda]
 
 TraceKeyGen ==
   /\ l <= Len(TraceLog) /\ TraceLog[l].op = "KeyGen" /\ l' = l + 1
   /\ LET e == TraceLog[l] IN
-       /\ ExplainsKey(e)
-       /\ bits' = e.bits /\ stage' = "done" /\ key' = MakeKey(e.p, e.q)
+       \* (IF: TLC evaluates the condition as an expression; as a conjunct of the action the disjunctions inside
+       \* IsPrime would be expanded into successor branches)
+       IF ExplainsKey(e) THEN bits' = e.bits /\ stage' = "done" /\ key' = MakeKey(e.p, e.q)
+                         ELSE FALSE
 
 TraceSpec == TraceInit /\ [][TraceKeyGen]_tvars
 
@@ -39,8 +52,11 @@ HighWater == TLCSet(1, IF l > TLCGet(1) THEN l ELSE TLCGet(1))
 BadLog == IF "BAD" \in DOMAIN IOEnv THEN ndJsonDeserialize(IOEnv.BAD) ELSE <<>>
 Rejected == {i \in DOMAIN BadLog : ~ExplainsKey(BadLog[i])}
 
+Drift == {i \in DOMAIN TraceLog : ~InGeneratorModel(TraceLog[i])}
+
 TraceAccepted ==
   /\ PrintT(<<"TRACE_HW", TLCGet(1) - 1, Len(TraceLog)>>)
+  /\ PrintT(<<"DRIFT", Cardinality(Drift), IF Drift = {} THEN 0 ELSE CHOOSE i \in Drift : \A j \in Drift : i <= j>>)
   /\ PrintT(<<"SELFTEST", Cardinality(Rejected), Len(BadLog)>>)
   /\ TLCGet(1) = Len(TraceLog) + 1
   /\ Cardinality(Rejected) = Len(BadLog)
